@@ -22,13 +22,11 @@ HERE = os.path.dirname(os.path.abspath(__file__))
 if HERE not in sys.path:
     sys.path.insert(0, HERE)
 import cases as C          # noqa: E402
+from tielib import ENV, tie_component, run_proc   # noqa: E402
 import treegen as T        # noqa: E402
 import toolcheck as TC     # noqa: E402
 
 LEVEL = "proof"
-ENV = dict(os.environ, ASAN_OPTIONS="detect_leaks=0:abort_on_error=0", UBSAN_OPTIONS="print_stacktrace=1")
-ENV.pop("SOURCE_DATE_EPOCH", None)
-
 
 # --------------------------------------------------------------------------
 # generated constants (coq/C01/GenC01.v)
@@ -62,22 +60,6 @@ def regen_gen(plain):
 # component tie
 # --------------------------------------------------------------------------
 
-def run_proc(exe, lines, timeout=600):
-    data = ("\n".join(lines) + "\n").encode()
-    try:
-        r = subprocess.run([exe], input=data, stdout=subprocess.PIPE, stderr=subprocess.PIPE, env=ENV, timeout=timeout)
-        return r.returncode, r.stdout.decode("latin-1").split("\n"), r.stderr.decode("latin-1")
-    except subprocess.TimeoutExpired as e:
-        return 124, (e.stdout or b"").decode("latin-1").split("\n"), "[timeout]"
-
-
-def split_line(l):
-    if " | " not in l:
-        return l, None
-    a, b = l.split(" | ", 1)
-    return a, b
-
-
 def norm_inode_text(t):
     """inode text with the slack of a basic FIFO/socket cleared (decode cannot know it)"""
     p = t.split(" ")
@@ -86,37 +68,7 @@ def norm_inode_text(t):
     return " ".join(p)
 
 
-def tie_component(ctx, harness, driver, lines, name, chunk=4000):
-    """run harness then model on the harness's echoed model inputs; returns list of (input, impl, model)"""
-    results = []
-    bad_rc = None
-    chunks = [lines[i:i + chunk] for i in range(0, len(lines), chunk)]
-
-    def one(ch):
-        rc, out, err = run_proc(harness, ch)
-        out = [o for o in out if o != ""]
-        ins, res = [], []
-        for o in out:
-            a, b = split_line(o)
-            ins.append(a)
-            res.append(b)
-        rc2, mout, merr = run_proc(driver, ins)
-        mout = [o for o in mout if o != ""]
-        return rc, err, ch, ins, res, rc2, mout, merr
-
-    with ThreadPoolExecutor(max_workers=8) as ex:
-        for rc, err, ch, ins, res, rc2, mout, merr in ex.map(one, chunks):
-            if rc != 0 or len(res) != len(ch):
-                k = min(len(res), len(ch) - 1)
-                bad_rc = (rc, err[-3000:], ch[k])
-            if rc2 != 0:
-                bad_rc = bad_rc or (rc2, "model driver died: " + merr[-500:], ins[min(len(mout), len(ins) - 1)] if ins else "")
-            for i in range(min(len(ins), len(mout))):
-                results.append((ins[i], res[i], mout[i]))
-    return results, bad_rc
-
-
-def check_inode_tie(ctx, h_inode, drv, rnd, quick):
+def check_inode_tie(ctx, h_inode, h_inode_plain, drv, rnd, quick):
     t0 = time.time()
     n_enc = 30 if quick else 400
     enc = C.enc_cases(rnd, n_enc)
@@ -148,7 +100,9 @@ def check_inode_tie(ctx, h_inode, drv, rnd, quick):
                       dict(kind="tie-lines", lines=[bad[2]], stderr=bad[1]))
     # decoder: verdict + payload
     dec = C.dec_cases(rnd, enc_hex[:: (1 if not quick else 2)], 2000 if quick else 40000)
-    res_dec, bad = tie_component(ctx, h_inode, drv, dec, "dec")
+    # (the decoder runs in the un-instrumented build: hostile size fields make the reader calloc up to terabytes, which
+    #  ASan turns into minutes of shadow-memory work; memory safety of the readers is C05's subject)
+    res_dec, bad = tie_component(ctx, h_inode_plain, drv, dec, "dec")
     stats["dec"] = len(res_dec)
     for inp, impl, model in res_dec:
         if impl is None:
@@ -222,6 +176,7 @@ def run(ctx):
         core.prepare_proofs(ctx)
     inc = ["-I" + HERE]
     h_inode = B.compile_harness(asan, [os.path.join(HERE, "h_inode.c")], "c01_h_inode", extra=inc)
+    h_inode_plain = B.compile_harness(plain, [os.path.join(HERE, "h_inode.c")], "c01_h_inode", extra=inc)
     h_xattr = B.compile_harness(asan, [os.path.join(HERE, "h_xattr.c")], "c01_h_xattr", extra=inc) \
         if os.path.exists(os.path.join(HERE, "h_xattr.c")) else None
     drv = core.build_model_driver("C01", "ExtractC01.v", os.path.join(HERE, "driver.ml"))
@@ -239,7 +194,7 @@ def run(ctx):
     rnd = random.Random(ctx.seed * 7919 + 1)
     tie_bad, prop_bad = [], []
     with ThreadPoolExecutor(max_workers=4) as ex:
-        f_inode = ex.submit(check_inode_tie, ctx, h_inode, drv, random.Random(ctx.seed * 7919 + 2), quick)
+        f_inode = ex.submit(check_inode_tie, ctx, h_inode, h_inode_plain, drv, random.Random(ctx.seed * 7919 + 2), quick)
         f_idt = ex.submit(check_idt, ctx, h_inode, drv)
         f_xattr = ex.submit(TC.check_xattr_tie, ctx, h_xattr, drv, random.Random(ctx.seed * 7919 + 3), quick, ENV) if h_xattr else None
         f_tool = ex.submit(TC.tool_oracle, ctx, asan, plain, random.Random(ctx.seed * 7919 + 4), quick, ENV)
